@@ -24,6 +24,9 @@ CHECKS = {
  "C09": ("combinator semantics monitor: argument-relative oracle (each argument evaluated alone on the original input, per union stage), all permutations of ^, structural construction algebra",
          "For generated combinator nodes over disagreeing argument types: | accepts <=> some argument accepts in one of the three stages and returns an accepting argument's output (exact-type inputs returned unchanged); ^ accepts <=> exactly one argument accepts, identically for every argument order; ~ accepts <=> argument rejects, returning the input object; & equals the left fold. ~~T, duplicate/Any absorption, same-kind flattening and operator order with data classes are checked on the built types.",
          "Argument verdicts come from the library itself on fresh contexts (relation between runs). One known finding (^ exact-type shortcut). One-shot inputs skipped.", "§4 C09"),
+ "C14": ("encode/parse round-trip monitor with a strict-JSON reader: instance -> json.dumps(cls=JSONEncoder) -> standard-JSON check -> Cls.__from__(text) -> field-wise type-aware equality",
+         "Over generated data classes whose instances are drawn from the JSON-faithful domain the property states (all listed scalar types, containers, nesting; offsets of both signs incl. seconds; negative/sub-second durations; JS-unsafe numbers; +-inf): encoding succeeds, the text is standard JSON, and the re-parsed instance is equal.",
+         "Trusted: json (stdlib) as the strict reader, eq() in vmon/props/c14.py. Two known findings (Infinity token; attribute-based DataClass has no encoder); one defect repaired (negative UTC offsets).", "§4 C14"),
  "C16": ("history + executable sequential model over uniquely tagged registrations; bounded-exhaustive histories on a fresh TypeRegistry, random histories incl. base registries and the library's global transformer/encoder registries",
          "Every read (resolve / type_transform / plain-typed Schema field / json.dumps) in every history of length <= 5 (quick; 6 thorough) over a 13-symbol alphabet, plus random longer histories, must return the registration the no-cache 'highest priority, most recent wins' model predicts. Exhaustive for the stated alphabet and bound; exploration beyond it.",
          "Trusted: model_resolve()/matches() in vmon/props/c16.py (25 lines). Two defects found and repaired in /repo (b8f56f5, 28f56ca).", "§4 C16"),
